@@ -1299,6 +1299,96 @@ def _clone_into(g: G) -> Act | None:
     return Act("Region.clone_into", lambda: r.clone_into(d, idx), [r, d], f"{g.n(r)}.clone_into({g.n(d)}, {idx})", clone=spec, group="clone")
 
 
+class HarnessPass:
+    """Built lazily (needs xdsl.passes); a ModulePass that applies seeded edits to the
+    module it is handed and remembers which module that was."""
+
+
+def _mk_harness_pass(u: Universe, edits: list[int]):
+    from xdsl.passes import ModulePass
+
+    from simverif.irsim.universe import canon
+
+    class SimverifHarnessPass(ModulePass):
+        name = "simverif-harness"
+
+        def apply(self, ctx, op):  # type: ignore[override]
+            self.received = op
+            self.canon_at_entry = canon(u, op)
+            ops = [o for o in op.walk() if o is not op]
+            for i, e in enumerate(edits):
+                if not ops:
+                    break
+                o = ops[e % len(ops)]
+                k = (e // 7) % 4
+                if o.parent is None:
+                    continue
+                if k == 0:
+                    o.attributes["edited"] = ATTRS[e % len(ATTRS)]
+                elif k == 1:
+                    Rewriter.erase_op(o, safe_erase=False)
+                    ops = [x for x in op.walk() if x is not op]
+                elif k == 2:
+                    Rewriter.insert_op(TestOp.create(result_types=[i32]), InsertPoint.before(o))
+                else:
+                    for r in o.results[:1]:
+                        Rewriter.replace_value_with_new_type(r, i64)
+
+    p = SimverifHarnessPass()
+    p.received = None
+    p.canon_at_entry = None
+    return p
+
+
+_REAL_PASSES = ("dce", "cse", "canonicalize")
+
+
+@gen("ModuleOp.__init__", "create", 2)
+def _create_module(g: G) -> Act | None:
+    from xdsl.dialects.builtin import ModuleOp
+
+    if len(g.u.ops) >= g.max_ops:
+        return None
+    if g.s.flag(1, 3):
+        r = g.region(lambda r: r.parent is None and r._first_block is not None and r._first_block is r._last_block)
+        if r is not None:
+            return Act("ModuleOp.__init__", lambda: ModuleOp(r), [r], f"ModuleOp({g.n(r)})")
+    ops = g.some(lambda: g.op(detached_op), 4)
+    return Act("ModuleOp.__init__", lambda: ModuleOp(ops), list(ops), f"ModuleOp({g.ns(ops)})")
+
+
+@gen("ModulePass.apply_to_clone", "clone", 4)
+def _apply_to_clone(g: G) -> Act | None:
+    from xdsl.context import Context
+    from xdsl.dialects.builtin import Builtin, ModuleOp
+
+    if len(g.u.ops) >= 2 * g.max_ops:
+        return None
+    m = g.op(lambda o: isinstance(o, ModuleOp))
+    if m is None or not _clonable(g, m):
+        return None
+    which = g.s.weighted((3, 1, 1, 1))
+    ctx = Context(allow_unregistered=True)
+    ctx.load_dialect(Builtin)
+    if which == 0:
+        edits = [g.s.choice(1000) for _ in range(g.s.choice(5))]
+        ps = _mk_harness_pass(g.u, edits)
+        desc = f"SimverifHarnessPass(edits={edits}).apply_to_clone(ctx, {g.n(m)})"
+    else:
+        name = _REAL_PASSES[which - 1]
+        if name == "dce":
+            from xdsl.transforms.dead_code_elimination import DeadCodeElimination as P
+        elif name == "cse":
+            from xdsl.transforms.common_subexpression_elimination import CommonSubexpressionElimination as P
+        else:
+            from xdsl.transforms.canonicalize import CanonicalizePass as P
+        ps = P()
+        desc = f"{name}.apply_to_clone(ctx, {g.n(m)})"
+    spec = CloneSpec("apply_to_clone", m)
+    spec.value_mapper = {"pass": ps}  # type: ignore[assignment]  # carries the pass object to the oracle
+    return Act("ModulePass.apply_to_clone", lambda: ps.apply_to_clone(ctx, m), [m], desc, clone=spec, group="clone")
+
+
 @gen("attributes[k]=", "dictedit", 3)
 def _attr_edit(g: G) -> Act | None:
     o = g.op()
